@@ -32,23 +32,26 @@ def build_demo(wt, demo, out, flags):
     cmd = "gcc -std=gnu99 %s -g -w -I%s/include/qlibc -I%s/include -I%s/src/internal %s %s %s -lpthread -lm -o %s" % (opt, wt, wt, wt, " ".join(flags), demo, srcs, out)
     return sh(cmd), cmd
 
+ROOT_PREFIX = os.environ.get("SEED_ROOT", "qm")      # qm = round 1, qn = round 2
+KEEP_AS = {"qm": {"A": "A", "B": "B"}, "qn": {"A": "C", "B": "D"}, "qo": {"A": "E", "B": "F"}}
+
 def verify(pid, x):
-    wt = "/tmp/qm-%s" % pid
-    d = "/tmp/qm-%s-out/%s" % (pid, x)
+    wt = "/tmp/%s-%s" % (ROOT_PREFIX, pid)
+    d = "/tmp/%s-%s-out/%s" % (ROOT_PREFIX, pid, x)
     res = {"property": pid, "variant": x}
     sh("git -C %s checkout -- ." % wt)
     r = sh("git -C %s apply --check %s/patch.diff" % (wt, d))
     if r.returncode: return dict(res, ok=False, why="patch does not apply: " + r.stdout[:200])
     flags = demo_flags(d + "/demo.c")
     # original
-    r, cmd = build_demo(wt, d + "/demo.c", "/tmp/qm-%s-out/%s/demo_orig" % (pid, x), flags)
+    r, cmd = build_demo(wt, d + "/demo.c", d + "/demo_orig", flags)
     if r.returncode: return dict(res, ok=False, why="demo does not compile on original: " + r.stdout[-400:], cmd=cmd)
-    ro = sh("timeout 300 /tmp/qm-%s-out/%s/demo_orig" % (pid, x), cwd=d)
+    ro = sh("timeout 300 %s/demo_orig" % d, cwd=d)
     sh("git -C %s apply %s/patch.diff" % (wt, d))
-    r, cmd = build_demo(wt, d + "/demo.c", "/tmp/qm-%s-out/%s/demo_mut" % (pid, x), flags)
+    r, cmd = build_demo(wt, d + "/demo.c", d + "/demo_mut", flags)
     if r.returncode:
         sh("git -C %s checkout -- ." % wt); return dict(res, ok=False, why="demo does not compile with change: " + r.stdout[-400:])
-    rm = sh("timeout 300 /tmp/qm-%s-out/%s/demo_mut" % (pid, x), cwd=d)
+    rm = sh("timeout 300 %s/demo_mut" % d, cwd=d)
     # tests with the change
     t0 = time.time()
     rb = sh("cmake -G Ninja -S %s -B %s/_build -DCMAKE_BUILD_TYPE=RelWithDebInfo >/dev/null && cmake --build %s/_build 2>&1 | tail -3 && ctest --test-dir %s/_build -j8 --timeout 900 2>&1 | tail -6" % (wt, wt, wt, wt))
@@ -56,16 +59,16 @@ def verify(pid, x):
     tests_ok = "100% tests passed, 0 tests failed out of 10" in rb.stdout
     ok = ro.returncode == 0 and rm.returncode != 0 and tests_ok
     for f in ("demo_orig", "demo_mut"):
-        try: os.unlink("/tmp/qm-%s-out/%s/%s" % (pid, x, f))
+        try: os.unlink(d + "/" + f)
         except OSError: pass
     return dict(res, ok=ok, demo_flags=flags, demo_on_original_exit=ro.returncode, demo_with_change_exit=rm.returncode, demo_with_change_tail=rm.stdout[-300:],
                 tests_pass_with_change=tests_ok, tests_tail=rb.stdout[-300:], test_seconds=round(time.time()-t0))
 
 def keep(pid, x, v):
-    sid = "%s-%s" % (pid, x)
+    sid = "%s-%s" % (pid, KEEP_AS[ROOT_PREFIX][x])
     dst = "/verif/seeded/" + sid
     os.makedirs(dst, exist_ok=True)
-    src = "/tmp/qm-%s-out/%s" % (pid, x)
+    src = "/tmp/%s-%s-out/%s" % (ROOT_PREFIX, pid, x)
     for f in ("patch.diff", "demo.c", "README.md"):
         shutil.copy(os.path.join(src, f), os.path.join(dst, f))
     readme = open(os.path.join(src, "README.md")).read()
